@@ -175,6 +175,20 @@ func stripConv(v ssa.Value) ssa.Value {
 			v = x.X
 		case *ssa.ChangeInterface:
 			v = x.X
+		case *ssa.Phi:
+			// a phi all of whose edges carry the same value (a value returned by every exit of an inlined helper) is that value
+			if len(x.Edges) < 2 {
+				return v
+			}
+			for _, e := range x.Edges[1:] {
+				if e != x.Edges[0] {
+					return v
+				}
+			}
+			if x.Edges[0] == ssa.Value(x) {
+				return v
+			}
+			v = x.Edges[0]
 		default:
 			return v
 		}
